@@ -16,6 +16,38 @@ def proto_verdicts(model, streams):
     return {l.split()[1]: dict(x.split("=") for x in l.split()[2:]) for l in o.splitlines() if l.startswith("PROTO ")}
 
 
+ON_BODY = ('send "ON %s\\n"\n\t\texpect "([^ \\n]+) (OK|ERR[\\r\\n]*[A-Za-z0-9_]*)\\n"\n\t\t\tsetresult $1 $2 success="OK"\n\t\texpect "done\\n"')
+TEMP_BODY = ('send "STATUS_TEMP %s\\n"\n\t\texpect "([^ \\n]+) ([0-9]+[\\r\\n]*[A-Za-z0-9_]*)\\n"\n\t\t\tsetplugstate $1 $2\n\t\texpect "done\\n"')
+
+
+def crlf_device(sc, rng):
+    """make one device answer with CR / LF INSIDE the text that setresult (309 line) or setplugstate (303 temperature value) captures:
+    the scripts' capture groups are widened to admit it (as icebox3.dev's `[^ ]+` does), the simulated device is told to say so for one plug,
+    and client 0 asks for exactly that node"""
+    cands = []
+    for d in sc.cfg.devs:
+        for kind in ("on", "status_temp"):
+            if kind in d.kinds:
+                for p, n in sc.cfg.truth[d.name].items():
+                    if n: cands.append((d, kind, p, n))
+    if not cands:
+        return False
+    d, kind, plug, node = rng.choice(cands)
+    if kind == "on":
+        d.bodies["on"] = ON_BODY
+        text = rng.choice(["ERR\nx", "ERR\rx", "ERR\r\n102_y", "ERR\n\n"])
+        req = "on %s" % node
+    else:
+        d.bodies["status_temp"] = TEMP_BODY
+        text = rng.choice(["41\r\n102_Command_completed_successfully", "41\nx", "7\r"])
+        req = "temp %s" % node
+    pos = 2 * sc.tags["ncli"]
+    sc.script[pos:pos] = [("verdict", d.name, plug, text), ("send", 0, (req + "\r\n").encode()), ("wait", 0)]
+    sc.requests.insert(0, dict(client=0, line=req, word=req.split()[0], targets=[node], mode="crlf", step=pos + 1))
+    sc.tags["crlf"] = kind
+    return True
+
+
 def run(ctx, V):
     import C06
     proofs_ok = vlib.proof_gate(ctx, V, extract=["Extract/ExClient.vo", "Extract/ExEnqueue.vo"])
@@ -26,10 +58,12 @@ def run(ctx, V):
     scs = [pmcheck.gen_scenario(ctx.rng, style=styles[i % 3]) for i in range(n)]
     # telemetry echo of hostile device bytes: switch telemetry on for client 0 in every third scenario
     for i, sc in enumerate(scs):
+        if i % 4 == 2 and crlf_device(sc, ctx.rng):
+            V.count("crlf-device:" + sc.tags["crlf"])
         if i % 3 == 1:
             sc.script[2 * sc.tags["ncli"]:2 * sc.tags["ncli"]] = [("send", 0, b"telemetry\r\n"), ("wait", 0)]
     V.rule = ("whole-daemon histories on pmsim (unmodified powermand under the virtual OS; generated configurations, 1-3 clients, valid and refused requests, "
-              "device faults incl. garbage bytes echoed through telemetry); monitors: alive, protocol (python), and the EXTRACTED recogniser Spec.Proto on every "
+              "device faults incl. garbage bytes echoed through telemetry; every 4th history has a device whose setresult / temperature capture admits CR LF and which answers one plug with CR / LF inside the captured text); monitors: alive, protocol (python), and the EXTRACTED recogniser Spec.Proto on every "
               "client's raw stream (ok_prefix always; ok + one terminal line per line sent for clients served to the end). non-trivial = a simulated device "
               "received a command; distinct by (config, script)")
     sessions = pmcheck.run_batch(ctx, V, exe, scs, ["alive", "protocol"], "c15")
